@@ -19,7 +19,6 @@ package ipfilter
 
 import (
 	"net"
-	"strings"
 
 	"github.com/yl2chen/cidranger"
 
@@ -61,10 +60,11 @@ func New(spec *Spec) *IPFilter {
 		for _, ipcidr := range ipcidrs {
 			ip := net.ParseIP(ipcidr)
 			if ip != nil {
-				mask := allOnesIPv4Mask
-				// https://stackoverflow.com/a/48519490/1705845
-				if strings.Count(ipcidr, ":") >= 2 {
-					mask = allOnesIPv6Mask
+				mask := allOnesIPv6Mask
+				// An IPv4 address, also one in the IPv4-mapped IPv6
+				// form like ::ffff:10.0.0.1, needs the IPv4 mask.
+				if ip4 := ip.To4(); ip4 != nil {
+					ip, mask = ip4, allOnesIPv4Mask
 				}
 				ipNet := net.IPNet{IP: ip, Mask: mask}
 				ranger.Insert(cidranger.NewBasicRangerEntry(ipNet))
@@ -75,6 +75,12 @@ func New(spec *Spec) *IPFilter {
 			if err != nil {
 				logger.Errorf("BUG: %s is an invalid ip or cidr", ipcidr)
 				continue
+			}
+			// An IPv4-mapped IPv6 network like ::ffff:10.0.0.0/104 is
+			// the IPv4 network 10.0.0.0/8.
+			if ip4 := ipNet.IP.To4(); ip4 != nil && len(ipNet.Mask) == net.IPv6len {
+				ones, _ := ipNet.Mask.Size()
+				ipNet = &net.IPNet{IP: ip4, Mask: net.CIDRMask(ones-96, 32)}
 			}
 			ranger.Insert(cidranger.NewBasicRangerEntry(*ipNet))
 		}
